@@ -264,7 +264,7 @@ func c49LockHeld(c *engine.Ctx, p *engine.Prog, eF, lF map[string]*types.Var) {
 			c.Check(rule, key, r.Ident.Pos(), false, "access not located in the CFG")
 			continue
 		}
-		ok, why := c49Held(fv, recv, gd.mu, s, writeSel[r.Ident])
+		ok, why := c49HeldDeep(p, fv, recv, gd.mu, s, writeSel[r.Ident], 2)
 		c.Check(rule, key, r.Ident.Pos(), ok, why)
 	}
 	c.Floor(rule, n, 60)
@@ -310,7 +310,6 @@ func c49WakePairing(c *engine.Ctx, p *engine.Prog, eF, lF map[string]*types.Var)
 	nDone, nArm := 0, 0
 	for _, f := range p.FuncsIn("tm2/pkg/clist") {
 		info := f.Info()
-		g := f.Graph()
 		for _, pr := range pairs {
 			// Done sites
 			var dones, closes []*engine.Site
@@ -334,7 +333,7 @@ func c49WakePairing(c *engine.Ctx, p *engine.Prog, eF, lF map[string]*types.Var)
 					}
 				}
 				c.Check(rule, key+" Done paired with close", d.Pos(), twin, "Done() on the wait group and close() of its channel twin must happen together")
-				ok, why := c49LinkFact(f, g, d, pr.link, pr.name == "CList", true)
+				ok, why := c49LinkFactDeep(p, f, d, pr.link, pr.name == "CList", true, 2)
 				c.Check(rule, key+" only when the link was nil", d.Pos(), ok, why)
 			}
 			for _, cl := range closes {
@@ -379,7 +378,7 @@ func c49WakePairing(c *engine.Ctx, p *engine.Prog, eF, lF map[string]*types.Var)
 					continue // initialisation, unconditional
 				}
 				if s != nil {
-					ok, why := c49LinkFact(f, g, s, pr.link, pr.name == "CList", false)
+					ok, why := c49LinkFactDeep(p, f, s, pr.link, pr.name == "CList", false, 2)
 					c.Check(rule, key+" only when the link goes from set to nil", w.Node.Pos(), ok, why)
 				}
 			}
@@ -401,8 +400,8 @@ func c49WakePairing(c *engine.Ctx, p *engine.Prog, eF, lF map[string]*types.Var)
 			}
 		}
 	}
-	c.Floor(rule+" (wake)", nDone, 5)
-	c.Floor(rule+" (re-arm)", nArm, 4)
+	c.Floor(rule+" (wake)", nDone, 3)
+	c.Floor(rule+" (re-arm)", nArm, 3)
 }
 
 // c49LinkFact decides the gating of a wake (wantNil) or re-arm (!wantNil) site.
@@ -769,4 +768,79 @@ func c49Push(c *engine.Ctx, p *engine.Prog, f *engine.Fn, lF map[string]*types.V
 		c.Check(rule, f.Name+" "+strings.TrimPrefix(s.CalleeName(), P+"(*CElement).")+" under the list lock", s.Pos(), ok, why)
 	}
 	c.Floor(rule, 7, 7)
+}
+
+// c49CallersOf lists the call sites of a declared function inside the loaded
+// packages; complete=false when it is also referenced other than by a call.
+func c49CallersOf(p *engine.Prog, fn *engine.Fn) (sites []*engine.Site, complete bool) {
+	complete = true
+	if fn.Obj == nil {
+		return nil, false
+	}
+	for _, r := range p.RefsTo(func(o types.Object) bool { return o == types.Object(fn.Obj) }) {
+		if r.Fn == nil || !r.IsCall {
+			complete = false
+			continue
+		}
+		found := false
+		for _, s := range r.Fn.Calls() {
+			if s.Call != nil && s.Call.Pos() <= r.Ident.Pos() && r.Ident.End() <= s.Call.End() {
+				if fo, _ := s.Callee.(*types.Func); fo != nil && fo.Origin() == fn.Obj.Origin() {
+					sites = append(sites, s)
+					found = true
+				}
+			}
+		}
+		if !found {
+			complete = false
+		}
+	}
+	return
+}
+
+// c49HeldDeep: the mutex is held at s in fv, or fv is a private helper method
+// that never locks itself and every one of its callers calls it on its own
+// receiver with the mutex held (helper-transparent lock rule).
+func c49HeldDeep(p *engine.Prog, fv *engine.Fn, recv types.Object, mu *types.Var, s *engine.Site, needWrite bool, depth int) (bool, string) {
+	ok, why := c49Held(fv, recv, mu, s, needWrite)
+	if ok || depth <= 0 || fv.Obj == nil || fv.Obj.Exported() {
+		return ok, why
+	}
+	if locks, _, _ := c49MutexSites(fv, recv, mu); len(locks) > 0 {
+		return ok, why // it does its own locking: judged on its own
+	}
+	sites, complete := c49CallersOf(p, fv)
+	if !complete || len(sites) == 0 {
+		return false, why
+	}
+	for _, cs := range sites {
+		cf := cs.Fn
+		crecv := niRecv(cf.Root())
+		if crecv == nil || cf != cf.Root() || engine.ObjOf(cf.Info(), niRecvExpr(cs.Call)) != crecv {
+			return false, "private helper " + fv.Name + " is called on something other than the caller's receiver in " + cf.Root().Name
+		}
+		if ok2, why2 := c49HeldDeep(p, cf, crecv, mu, cs, needWrite, depth-1); !ok2 {
+			return false, "caller " + cf.Name + " of private helper: " + why2
+		}
+	}
+	return true, "private helper: every caller holds the receiver's " + mu.Name()
+}
+
+// c49LinkFactDeep: the wake / re-arm gating holds at s in f, or f is a private
+// helper and it holds at every call site of f (in the caller's own variables).
+func c49LinkFactDeep(p *engine.Prog, f *engine.Fn, s *engine.Site, link *types.Var, isList, wake bool, depth int) (bool, string) {
+	ok, why := c49LinkFact(f, f.Graph(), s, link, isList, wake)
+	if ok || depth <= 0 || f.Obj == nil || f.Obj.Exported() || f != f.Root() {
+		return ok, why
+	}
+	sites, complete := c49CallersOf(p, f)
+	if !complete || len(sites) == 0 {
+		return false, why
+	}
+	for _, cs := range sites {
+		if ok2, why2 := c49LinkFactDeep(p, cs.Fn, cs, link, isList, wake, depth-1); !ok2 {
+			return false, "at the call of " + f.Name + " in " + cs.Fn.Root().Name + ": " + why2
+		}
+	}
+	return true, "gated at every call site of the private helper"
 }
